@@ -211,11 +211,18 @@ func vcsNewRec() *vcsRec {
 	return &vcsRec{ices: map[string]bool{"new": true}, dtlss: map[string]bool{"new": true}, conns: []string{}}
 }
 
-func (r *vcsRec) attach(pc *PeerConnection) {
+// attach installs the recording handlers. With slow set, the application's ICE handler for "connected" is
+// still running when the DTLS handshake ends (it returns shortly after the DTLS transport reports
+// connected): the update that follows the handler overlaps the one made by the transports' start.
+func (r *vcsRec) attach(pc *PeerConnection, slow bool) {
 	pc.OnICEConnectionStateChange(func(s ICEConnectionState) { // invoked synchronously before the update
 		r.mu.Lock()
 		r.ices[s.String()] = true
 		r.mu.Unlock()
+		if slow && s == ICEConnectionStateConnected {
+			vcsWait(5*time.Second, func() bool { return pc.dtlsTransport.State() == DTLSTransportStateConnected })
+			time.Sleep(10 * time.Millisecond)
+		}
 	})
 	pc.SCTP().Transport().OnStateChange(func(s DTLSTransportState) { // invoked synchronously at the store
 		r.mu.Lock()
@@ -317,23 +324,30 @@ func TestVerifConnStatePairs(t *testing.T) {
 			t.Fatal(err)
 		}
 		rO, rA := vcsNewRec(), vcsNewRec()
-		rO.attach(pcO)
-		rA.attach(pcA)
+		slow := id%2 == 1
+		rO.attach(pcO, slow)
+		rA.attach(pcA, slow)
 		if err := signalPair(pcO, pcA); err != nil {
 			t.Fatal(err)
 		}
 		connected := vcsWait(15*time.Second, func() bool { return rO.has("connected") && rA.has("connected") })
 		time.Sleep(20 * time.Millisecond)
+		if slow {
+			time.Sleep(40 * time.Millisecond)
+		}
 		snO, snA := vcsSnaps(pcO, 5), vcsSnaps(pcA, 5)
 		lO := rO.line(id, "offerer", "up", []bool{false}, snO)
 		lA := rA.line(id, "answerer", "up", []bool{false}, snA)
 		lO["driven"], lA["driven"] = connected, connected
+		if slow {
+			lO["sig"], lA["sig"] = fmt.Sprint(lO["sig"])+"slow-ice-handler", fmt.Sprint(lA["sig"])+"slow-ice-handler"
+		}
 		tr.Emit(lO)
 		tr.Emit(lA)
 
 		// which side closes first varies with the pair number; the other one is closed by the DTLS
 		// close_notify of its peer or by the explicit Close, whichever comes first
-		if id%2 == 0 {
+		if (id/2)%2 == 0 {
 			closePairNow(t, pcO, pcA)
 		} else {
 			closePairNow(t, pcA, pcO)
